@@ -244,6 +244,8 @@ def run(c):
         pass
     work = designs.scratch("C14")
     builds = e2e.build_many(c.seed, range(n), lambda i: ["-errors"] if i % 3 == 1 else [], work)
+    # the solo table (one attribute per method: every type x presence x validation x location, a format AND a pattern on one string)
+    builds += e2e.build_many(c.seed, range(4 if c.tier == "quick" else 12), lambda i: ["-solo-design"], work)
     for b in builds:
         if b.error:
             c.hist("build", "rejected" if b.error.startswith("rejected") else "failed")
@@ -542,6 +544,11 @@ def judge_design(c, b, drv, per_valid, cap):
             c.hist("response", "conforms" if v.get("response_ok") else "does not conform")
             if not v.get("response_documented"):
                 c.fail("c14/success-status-undocumented", "%s.%s: status %s is not documented" % (s["name"], m["name"], w.get("status")), input=inp, design=b.design)
+            elif not v.get("response_ok") and re.search(r'unable to decode header "[^"]*" value: path \d+: value  ', v.get("response_err") or ""):
+                # the generated server separates the elements of an array in a header by ", " (a list with optional white space, RFC 9110 5.6.1);
+                # kin-openapi splits at "," and does not trim: not a verdict about the document (how such arrays reach the client is C03's
+                # recorded finding)
+                c.hist("validator-limitation", "array elements in a response header separated by \", \"")
             elif not v.get("response_ok"):
                 c.fail("c14/response:" + kin_class(v.get("response_err")), "%s.%s: the response (status %s) does not conform to its documented schema: %s" %
                        (s["name"], m["name"], w.get("status"), v.get("response_err", "")[:300]), input=inp, design=b.design, actual=(w.get("resp_body") or "")[:400])
